@@ -178,28 +178,32 @@ theorem keep_enterState (mi : Nat) (m : Machine) (cur next : Nat) (s : Fw σ) (h
     · exact (h1.trans (keep_modRt _ mi _ (by simpa using hmi))).trans ⟨rfl, rfl, rfl⟩
   · exact Keep.refl s
 
+theorem keep_storeCounterA (mi oldA newA : Nat) (s : Fw σ) (hmi : mi < s.rt.length) :
+    Keep s (storeCounterA mi oldA newA s).1 := by
+  unfold storeCounterA
+  simp only
+  have h1 := keep_modRt s mi (fun r => { r with counterA := newA }) hmi
+  split
+  · exact h1.trans (keep_modRt _ mi _ (by simpa using hmi))
+  · exact h1
+
+theorem keep_storeCounterB (mi oldB newB : Nat) (s : Fw σ) (hmi : mi < s.rt.length) :
+    Keep s (storeCounterB mi oldB newB s).1 := by
+  unfold storeCounterB
+  simp only
+  have h1 := keep_modRt s mi (fun r => { r with counterB := newB }) hmi
+  split
+  · exact h1.trans (keep_modRt _ mi _ (by simpa using hmi))
+  · exact h1
+
 theorem keep_applyCounterA (mi : Nat) (c : Option Counter) (oldA oldB : Nat) (s : Fw σ) (hmi : mi < s.rt.length) :
     Keep s (applyCounterA ρ mi c oldA oldB s).1 := by
   unfold applyCounterA
   cases c with
   | none => exact Keep.refl s
   | some c =>
-    simp only
-    cases hc : c.copy with
-    | true =>
-      simp only [if_true]
-      have h1 := keep_modRt s mi (fun r => { r with counterA := applyOp c.operation oldA oldB }) hmi
-      split
-      · exact h1.trans (keep_modRt _ mi _ (by simpa using hmi))
-      · exact h1
-    | false =>
-      simp only [Bool.false_eq_true, if_false]
-      obtain ⟨hrl, _⟩ := sampleValue_spec ρ mi c s
-      have h1 := (keep_rngLog hrl).trans (keep_modRt (sampleValue ρ c s).2 mi
-        (fun r => { r with counterA := applyOp c.operation oldA (sampleValue ρ c s).1 }) (by rw [hrl.rt]; exact hmi))
-      split
-      · exact h1.trans (keep_modRt _ mi _ (by simp only [Fw.modRt_rt_length]; rw [hrl.rt]; exact hmi))
-      · exact h1
+    have hrl := (counterOperand_spec ρ mi c oldB s).1
+    exact (keep_rngLog hrl).trans (keep_storeCounterA mi _ _ _ (by rw [hrl.rt]; exact hmi))
 
 theorem keep_applyCounterB (mi : Nat) (c : Option Counter) (oldA oldB : Nat) (s : Fw σ) (hmi : mi < s.rt.length) :
     Keep s (applyCounterB ρ mi c oldA oldB s).1 := by
@@ -207,22 +211,8 @@ theorem keep_applyCounterB (mi : Nat) (c : Option Counter) (oldA oldB : Nat) (s 
   cases c with
   | none => exact Keep.refl s
   | some c =>
-    simp only
-    cases hc : c.copy with
-    | true =>
-      simp only [if_true]
-      have h1 := keep_modRt s mi (fun r => { r with counterB := applyOp c.operation oldB oldA }) hmi
-      split
-      · exact h1.trans (keep_modRt _ mi _ (by simpa using hmi))
-      · exact h1
-    | false =>
-      simp only [Bool.false_eq_true, if_false]
-      obtain ⟨hrl, _⟩ := sampleValue_spec ρ mi c s
-      have h1 := (keep_rngLog hrl).trans (keep_modRt (sampleValue ρ c s).2 mi
-        (fun r => { r with counterB := applyOp c.operation oldB (sampleValue ρ c s).1 }) (by rw [hrl.rt]; exact hmi))
-      split
-      · exact h1.trans (keep_modRt _ mi _ (by simp only [Fw.modRt_rt_length]; rw [hrl.rt]; exact hmi))
-      · exact h1
+    have hrl := (counterOperand_spec ρ mi c oldA s).1
+    exact (keep_rngLog hrl).trans (keep_storeCounterB mi _ _ _ (by rw [hrl.rt]; exact hmi))
 
 theorem keep_scheduleAction (mi next : Nat) (s : Fw σ) (m : Machine) (st : State)
     (hm : s.machines[mi]? = some m) (hst : m.states[next]? = some st) (hlen : mi < s.actions.length) :
@@ -281,47 +271,57 @@ theorem unset_le_of_reach {mi : Nat} {s t : Fw σ} (h : Reach mi s t) : unset t 
   | refl => exact Nat.le_refl _
   | tail _ st ih => exact Nat.le_trans (unset_le_of_step st) ih
 
+theorem unset_storeCounterA (mi oldA newA : Nat) (s : Fw σ) (hmi : mi < s.rt.length) :
+    unset (storeCounterA mi oldA newA s).1 mi + (if (storeCounterA mi oldA newA s).2 then 1 else 0) ≤ unset s mi := by
+  unfold storeCounterA
+  simp only
+  have hr' : ∃ r, s.rt[mi]? = some r := ⟨s.rt[mi], List.getElem?_eq_getElem hmi⟩
+  obtain ⟨r, hr⟩ := hr'
+  have hu1 : unset (s.modRt mi (fun r => { r with counterA := newA })) mi = unset s mi :=
+    unset_modRt_keep s mi (fun r => { r with counterA := newA }) (fun _ => rfl) (fun _ => rfl)
+  split
+  · next h =>
+    simp only [Bool.and_eq_true, Bool.not_eq_true'] at h
+    have hz := h.2
+    rw [zeroedAOf_modRt, hr] at hz
+    simp only [Option.map_some, Option.getD_some] at hz
+    unfold unset
+    rw [zeroedAOf_modRt, zeroedBOf_modRt, Fw.modRt_rt_self, hr, zeroedAOf_eq, zeroedBOf_eq, hr]
+    simp [hz]
+    omega
+  · simp [hu1]
+
+theorem unset_storeCounterB (mi oldB newB : Nat) (s : Fw σ) (hmi : mi < s.rt.length) :
+    unset (storeCounterB mi oldB newB s).1 mi + (if (storeCounterB mi oldB newB s).2 then 1 else 0) ≤ unset s mi := by
+  unfold storeCounterB
+  simp only
+  have hr' : ∃ r, s.rt[mi]? = some r := ⟨s.rt[mi], List.getElem?_eq_getElem hmi⟩
+  obtain ⟨r, hr⟩ := hr'
+  have hu1 : unset (s.modRt mi (fun r => { r with counterB := newB })) mi = unset s mi :=
+    unset_modRt_keep s mi (fun r => { r with counterB := newB }) (fun _ => rfl) (fun _ => rfl)
+  split
+  · next h =>
+    simp only [Bool.and_eq_true, Bool.not_eq_true'] at h
+    have hz := h.2
+    rw [zeroedBOf_modRt, hr] at hz
+    simp only [Option.map_some, Option.getD_some] at hz
+    unfold unset
+    rw [zeroedAOf_modRt, zeroedBOf_modRt, Fw.modRt_rt_self, hr, zeroedAOf_eq, zeroedBOf_eq, hr]
+    simp [hz]
+  · simp [hu1]
+
 theorem unset_applyCounterA (mi : Nat) (c : Option Counter) (oldA oldB : Nat) (s : Fw σ) (hmi : mi < s.rt.length) :
     unset (applyCounterA ρ mi c oldA oldB s).1 mi + (if (applyCounterA ρ mi c oldA oldB s).2 then 1 else 0) ≤ unset s mi := by
   unfold applyCounterA
   cases c with
   | none => simp
   | some c =>
-    simp only
-    have key : ∀ (p : Nat × Fw σ), p.2.rt = s.rt →
-        unset (if (decide (oldA ≠ 0) && decide (applyOp c.operation oldA p.1 = 0) &&
-            !zeroedAOf (p.2.modRt mi (fun r => { r with counterA := applyOp c.operation oldA p.1 })) mi) = true
-          then ((p.2.modRt mi (fun r => { r with counterA := applyOp c.operation oldA p.1 })).modRt mi
-                  (fun r => { r with zeroedA := true }), true)
-          else (p.2.modRt mi (fun r => { r with counterA := applyOp c.operation oldA p.1 }), false)).1 mi +
-        (if (if (decide (oldA ≠ 0) && decide (applyOp c.operation oldA p.1 = 0) &&
-            !zeroedAOf (p.2.modRt mi (fun r => { r with counterA := applyOp c.operation oldA p.1 })) mi) = true
-          then ((p.2.modRt mi (fun r => { r with counterA := applyOp c.operation oldA p.1 })).modRt mi
-                  (fun r => { r with zeroedA := true }), true)
-          else (p.2.modRt mi (fun r => { r with counterA := applyOp c.operation oldA p.1 }), false)).2 then 1 else 0) ≤ unset s mi := by
-      intro p hrt
-      have hr' : ∃ r, s.rt[mi]? = some r := ⟨s.rt[mi], List.getElem?_eq_getElem hmi⟩
-      obtain ⟨r, hr⟩ := hr'
-      have hu1 : unset (p.2.modRt mi (fun r => { r with counterA := applyOp c.operation oldA p.1 })) mi = unset s mi :=
-        (unset_modRt_keep p.2 mi (fun r => { r with counterA := applyOp c.operation oldA p.1 })
-          (fun _ => rfl) (fun _ => rfl)).trans (unset_congr (by rw [hrt]))
-      split
-      · next h =>
-        simp only [Bool.and_eq_true, Bool.not_eq_true'] at h
-        have hz := h.2
-        rw [zeroedAOf_modRt, hrt, hr] at hz
-        simp only [Option.map_some, Option.getD_some] at hz
-        unfold unset
-        rw [zeroedAOf_modRt, zeroedBOf_modRt, Fw.modRt_rt_self, hrt, hr, zeroedAOf_eq, zeroedBOf_eq, hr]
-        simp [hz]
-        omega
-      · simp [hu1]
-    by_cases hc : c.copy = true
-    · simp only [hc, if_true]
-      exact key (oldB, s) rfl
-    · simp only [hc, if_false]
-      obtain ⟨hrl, _⟩ := sampleValue_spec ρ mi c s
-      exact key (sampleValue ρ c s) hrl.rt
+    have hrl := (counterOperand_spec ρ mi c oldB s).1
+    have := unset_storeCounterA mi oldA (applyOp c.operation oldA (counterOperand ρ c oldB s).1)
+      (counterOperand ρ c oldB s).2 (by rw [hrl.rt]; exact hmi)
+    have h2 : unset (counterOperand ρ c oldB s).2 mi = unset s mi := unset_congr (by rw [hrl.rt])
+    simp only []
+    omega
 
 theorem unset_applyCounterB (mi : Nat) (c : Option Counter) (oldA oldB : Nat) (s : Fw σ) (hmi : mi < s.rt.length) :
     unset (applyCounterB ρ mi c oldA oldB s).1 mi + (if (applyCounterB ρ mi c oldA oldB s).2 then 1 else 0) ≤ unset s mi := by
@@ -329,40 +329,12 @@ theorem unset_applyCounterB (mi : Nat) (c : Option Counter) (oldA oldB : Nat) (s
   cases c with
   | none => simp
   | some c =>
-    simp only
-    have key : ∀ (p : Nat × Fw σ), p.2.rt = s.rt →
-        unset (if (decide (oldB ≠ 0) && decide (applyOp c.operation oldB p.1 = 0) &&
-            !zeroedBOf (p.2.modRt mi (fun r => { r with counterB := applyOp c.operation oldB p.1 })) mi) = true
-          then ((p.2.modRt mi (fun r => { r with counterB := applyOp c.operation oldB p.1 })).modRt mi
-                  (fun r => { r with zeroedB := true }), true)
-          else (p.2.modRt mi (fun r => { r with counterB := applyOp c.operation oldB p.1 }), false)).1 mi +
-        (if (if (decide (oldB ≠ 0) && decide (applyOp c.operation oldB p.1 = 0) &&
-            !zeroedBOf (p.2.modRt mi (fun r => { r with counterB := applyOp c.operation oldB p.1 })) mi) = true
-          then ((p.2.modRt mi (fun r => { r with counterB := applyOp c.operation oldB p.1 })).modRt mi
-                  (fun r => { r with zeroedB := true }), true)
-          else (p.2.modRt mi (fun r => { r with counterB := applyOp c.operation oldB p.1 }), false)).2 then 1 else 0) ≤ unset s mi := by
-      intro p hrt
-      have hr' : ∃ r, s.rt[mi]? = some r := ⟨s.rt[mi], List.getElem?_eq_getElem hmi⟩
-      obtain ⟨r, hr⟩ := hr'
-      have hu1 : unset (p.2.modRt mi (fun r => { r with counterB := applyOp c.operation oldB p.1 })) mi = unset s mi :=
-        (unset_modRt_keep p.2 mi (fun r => { r with counterB := applyOp c.operation oldB p.1 })
-          (fun _ => rfl) (fun _ => rfl)).trans (unset_congr (by rw [hrt]))
-      split
-      · next h =>
-        simp only [Bool.and_eq_true, Bool.not_eq_true'] at h
-        have hz := h.2
-        rw [zeroedBOf_modRt, hrt, hr] at hz
-        simp only [Option.map_some, Option.getD_some] at hz
-        unfold unset
-        rw [zeroedAOf_modRt, zeroedBOf_modRt, Fw.modRt_rt_self, hrt, hr, zeroedAOf_eq, zeroedBOf_eq, hr]
-        simp [hz]
-      · simp [hu1]
-    by_cases hc : c.copy = true
-    · simp only [hc, if_true]
-      exact key (oldA, s) rfl
-    · simp only [hc, if_false]
-      obtain ⟨hrl, _⟩ := sampleValue_spec ρ mi c s
-      exact key (sampleValue ρ c s) hrl.rt
+    have hrl := (counterOperand_spec ρ mi c oldA s).1
+    have := unset_storeCounterB mi oldB (applyOp c.operation oldB (counterOperand ρ c oldA s).1)
+      (counterOperand ρ c oldA s).2 (by rw [hrl.rt]; exact hmi)
+    have h2 : unset (counterOperand ρ c oldA s).2 mi = unset s mi := unset_congr (by rw [hrl.rt])
+    simp only []
+    omega
 
 /-- no new fault other than a duration overflow, and the pending signal stays well-formed -/
 def Safe (s t : Fw σ) : Prop := NoNewBad s t ∧ (SigOK s → SigOK t)
